@@ -289,7 +289,7 @@ structure H2Body where
   bodyLen : Int := -1                  -- r->reqbody_length (-1: no Content-Length)
   state : H2StreamState := .open
   rst : Nat := 0                       -- RST_STREAM frames sent for the stream
-deriving Repr
+deriving Repr, DecidableEq
 
 /-- one DATA frame on the stream (flow-control windows are never the limit here: lighttpd leaves
     the stream window untouched and re-credits the connection window).  The result does not
